@@ -345,15 +345,22 @@ func genSuggestCore(r *RNG, model *CfgModel, common []string) *sCase {
 	sc := &sCase{Kind: "core-literal:" + l.class, Common: common, Closed: true, UpperValue: l.upper, Allowed: chainNames(model, "", true)}
 	sc.Must = chainNames(model, l.class, false)
 	var lines []string
+	if r.Chance(1, 3) && l.class != "NilClass" && l.class != "Bool" {
+		// the program reopens the core class: one class with the configured one
+		lines = append(lines, "class "+l.class, "  def reopened_m", "    1", "  end", "end")
+		sc.Must = append(append([]string{}, sc.Must...), "reopened_m")
+		sc.Kind += "+reopened"
+	}
 	if r.Bool() {
 		lines = append(lines, "v = "+l.text, "v.")
 		sc.Recv = "v"
 	} else {
-		lines = append(lines, l.text+".")
-		sc.Recv = l.text
 		if l.class == "Integer" || l.class == "Float" {
-			lines = []string{"v = " + l.text, "v."}
+			lines = append(lines, "v = "+l.text, "v.")
 			sc.Recv = "v"
+		} else {
+			lines = append(lines, l.text+".")
+			sc.Recv = l.text
 		}
 	}
 	sc.Row = len(lines)
